@@ -474,6 +474,10 @@ def extra_cells():
         for b in KEYS:
             out.append(("stmt=LISTCOUNT types=%s,%s" % (a, b), "Die Variable x%%d ist (v%s) Mal (v%s).\n" % (a, b)))
             out.append(("stmt=LISTLIT types=%s,%s" % (a, b), "Die Variable x%%d ist eine Liste, die aus (v%s), (v%s) besteht.\n" % (a, b)))
+    # `falls` with a literal first operand after a statement that leaves a temporary behind (c.latestIsTemp is not reset by literals)
+    for k, lit in (("Z", "2"), ("K", "2,0"), ("W", "falsch"), ("C", "'a'"), ("T", '"a"')):
+        out.append(("stmt=FALLS_AFTER_TEMP types=%s" % k,
+                    "Die Variable y%%d ist (vT) verkettet mit (vT).\nDie Variable x%%d ist %s, falls wahr, ansonsten (v%s).\n" % (lit, k)))
     for cont in ("T", "LZ", "LK", "LB", "LW", "LC", "LT", "LS", "LV", "LD"):
         for idx in ("Z", "B", "A", "K"):
             for val in KEYS:
@@ -499,7 +503,7 @@ def extra_cells():
 class Backend:
     def __init__(self, b, sc, prelude=None):
         import itertools
-        self.b, self.sc, self.seq, self.programs, self.prelude = b, sc, itertools.count(1), 0, prelude
+        self.b, self.sc, self.seq, self.programs, self.prelude, self.groups = b, sc, itertools.count(1), 0, prelude, {}
 
     def compile_items(self, items):
         """items: [(key, text)] in one program -> (verdict, output)"""
@@ -518,8 +522,22 @@ class Backend:
         bad = {}
         bad.update(self.isolate(items[:h]))
         bad.update(self.isolate(items[h:]))
-        if not bad:   # fails only in combination: report the whole group
-            bad[items[0][0]] = ("combination:" + v, out)
+        if not bad:
+            # fails only in combination (state left behind by an earlier statement): the smallest failing group found is
+            # the replay; it is attributed to the statement kddp's message points into, else to the first one
+            body = "".join(t for _, t in items)
+            culprit = items[0][0]
+            m = re.search(r"Range\{Start: Pos\{L: (\d+)", out)
+            if m and self.prelude is None:
+                line = int(m.group(1)) - minimal_prelude(body).count("\n")
+                for k, t in items:
+                    n = t.count("\n")
+                    if 1 <= line <= n:
+                        culprit = k
+                        break
+                    line -= n
+            bad[culprit] = ("combination:" + v, out)
+            self.groups[culprit] = body
         return bad
 
 
@@ -580,7 +598,8 @@ def main():
     def report(key, verdict, out, text, extra=None):
         """a frontend-accepted program that kddp does not compile"""
         what = "the frontend accepts the program, kddp answers %s: %s" % (verdict, " ".join(out.split())[:400])
-        rep = dict(program=minimal_prelude(text) + text, statement=text, verdict=verdict, output=out[-1500:], how="DDPPATH=<build> kddp kompiliere prog.ddp -o prog.o")
+        group = extra.pop("group", None) if extra else None
+        rep = dict(program=minimal_prelude(group or text) + (group or text), statement=text, verdict=verdict, output=out[-1500:], how="DDPPATH=<build> kddp kompiliere prog.ddp -o prog.o")
         if extra:
             rep.update(extra)
             rep.pop("prelude", None)
@@ -588,7 +607,7 @@ def main():
         fn = os.path.join(corpus_dir, re.sub(r"[^A-Za-z0-9_=,.-]+", "_", key)[:150] + ".ddp")
         if new and not os.path.exists(fn) and len(os.listdir(corpus_dir)) < 200:
             with open(fn, "w") as fh:
-                fh.write("[%s]\n" % key + text)
+                fh.write("[%s]\n" % key + (group or text))
         return new
 
     # ---- 0. corpus first --------------------------------------------------------------------
@@ -721,7 +740,7 @@ def main():
                 ck.broken_obligation("kddp reports a frontend error for %s which parser.Parse (cellx) accepted" % ukey[u], outp[u][-600:])
                 continue
             n_viol += 1
-            report("%s verdict=%s" % (ukey[u], v), v, outp[u], stmt[u], dict(cell=cell_name(cells[i]), context=x, checker_type=admitted[i], model_prediction=p))
+            report("%s verdict=%s" % (ukey[u], v), v, outp[u], stmt[u], dict(cell=cell_name(cells[i]), context=x, checker_type=admitted[i], model_prediction=p, group=be.groups.get(u)))
         if model_ok and p != v:
             disagreements.append((ukey[u], p, v))
     # ---- 3. correspondence of the tables ----------------------------------------------------------
@@ -768,7 +787,7 @@ def main():
                 continue
             if v != "ok":
                 n_viol += 1
-                report("%s verdict=%s" % (tkey[u], v), v, out, tstmt[u], dict(cell=cell_name(cells[i]), context=x, operands="temporaries (call results)", checker_type=tadm[i], model_prediction=p, prelude="PRELUDE_TEMP"))
+                report("%s verdict=%s" % (tkey[u], v), v, out, tstmt[u], dict(cell=cell_name(cells[i]), context=x, operands="temporaries (call results)", checker_type=tadm[i], model_prediction=p, prelude="PRELUDE_TEMP", group=tbe.groups.get(u)))
             if model_ok and p != v:
                 tdis.append((tkey[u], p, v))
         if tdis and not ck.violations:
@@ -803,7 +822,8 @@ def main():
     ck.rng.shuffle(lgood)
     LB = 60
     lbad = {}
-    for r in vlib.pmap(lambda bt: be.isolate([(u, lunits[u][3]) for u in bt]), [lgood[k:k + LB] for k in range(0, len(lgood), LB)]):
+    lbe = Backend(b, sc)
+    for r in vlib.pmap(lambda bt: lbe.isolate([(u, lunits[u][3]) for u in bt]), [lgood[k:k + LB] for k in range(0, len(lgood), LB)]):
         lbad.update(r)
     for u in lgood:
         ck.nontrivial(lunits[u][4])
@@ -812,7 +832,7 @@ def main():
             ck.broken_obligation("kddp reports a frontend error for %s which parser.Parse (cellx) accepted" % lunits[u][4], out[-600:])
             continue
         n_viol += 1
-        report("%s verdict=%s" % (lunits[u][4], v), v, out, lunits[u][3], dict(operands="literals where the key names one", context=lunits[u][2]))
+        report("%s verdict=%s" % (lunits[u][4], v), v, out, lunits[u][3], dict(operands="literals where the key names one", context=lunits[u][2], group=lbe.groups.get(u)))
     # ---- 4. statement-level operand positions (direct judgement) -----------------------------------
     ex = extra_cells()
     eres, problems = frontend_batch(cx, b, [(j, t) for j, (k, t) in enumerate(ex)])
@@ -827,9 +847,10 @@ def main():
     egood = [j for j in eacc if j not in set(esingle)]
     ck.rng.shuffle(egood)
     ebad = {}
-    for r in vlib.pmap(lambda bt: be.isolate([(j, ex[j][1]) for j in bt]), [egood[k:k + BATCH] for k in range(0, len(egood), BATCH)]):
+    ebe = Backend(b, sc)
+    for r in vlib.pmap(lambda bt: ebe.isolate([(j, ex[j][1]) for j in bt]), [egood[k:k + BATCH] for k in range(0, len(egood), BATCH)]):
         ebad.update(r)
-    for j, (v, out) in zip(esingle, vlib.pmap(lambda j: be.compile_items([(j, ex[j][1])]), esingle)):
+    for j, (v, out) in zip(esingle, vlib.pmap(lambda j: ebe.compile_items([(j, ex[j][1])]), esingle)):
         if v != "ok":
             ebad[j] = (v, out)
     for j in eacc:
@@ -839,11 +860,11 @@ def main():
             ck.broken_obligation("kddp reports a frontend error for %s which parser.Parse (cellx) accepted" % ex[j][0], out[-600:])
             continue
         n_viol += 1
-        report("%s verdict=%s" % (ex[j][0], v), v, out, ex[j][1])
+        report("%s verdict=%s" % (ex[j][0], v), v, out, ex[j][1], dict(group=ebe.groups.get(j)))
     # ---- evidence -----------------------------------------------------------------------------------
     ck.cov.update(dict(
         exhaustive=True, cells=len(cells), admitted_cells=len(admitted), context_units=len(units), compiled_units=len(real), skipped_units_quick=skipped,
-        predicted_bad_units=len(single), programs_compiled=be.programs, statement_cells=len(ex), statement_cells_admitted=len(eacc),
+        predicted_bad_units=len(single), programs_compiled=be.programs + lbe.programs + ebe.programs, statement_cells=len(ex), statement_cells_admitted=len(eacc),
         temporary_flavour_units=temp_units, literal_variants=len(lit_variants), literal_units_compiled=len(lgood), failing_units=n_viol, model_disagreements=len(disagreements), checker_table_mismatches=len(tc_mismatch),
         operators=dict(unary=un, binary=bi, ternary=te, cast=ca), type_classes=KEYS, contexts=CTX_ALL,
         input_distribution="enumeration, no sampling in the frontend leg: every operator of operators.go x every tuple of %d operand classes (%d cells) through the real frontend; every admitted cell x every applicable value context (%s) through kddp+LLVM+gcc (quick tier: initialiser contexts VI/IN for every admitted cell, 20%% seeded sample of the other contexts of cells predicted fine, up to 3 contexts of every cell predicted bad and 8%% of the list-literal-of-lists units alone; thorough: everything, plus every cell again with call results as operands in 5 contexts); every admitted cell again with bare literals (Zahl 0 1 2 -1, Kommazahl 0,0 2,0, wahr falsch, 'a', \"a\") in each single operand position (thorough: every combination) in the initialiser and argument contexts (thorough: also VI, RT), judged directly; statement operand positions (repeat count, loop condition, list count/literal, indexed assignment, counting and range loops) x classes judged directly" % (len(KEYS), len(cells), ",".join(CTX_ALL)),
